@@ -183,9 +183,17 @@ class UF:
         self.p[self.find(a)] = self.find(b)
 
 
-def check_registry(inputs, cmps, registry):
+def check_registry(inputs, cmps, registry, first_phase=None):
     gen_ = MetadataGenerator(registry)
     reg = stages._TableRegistry(*cmps)
+    if first_phase:
+        # more data arrives after a first merge_models(): the registry is merged a second time (models that already are
+        # merge results, self-references included, take part)
+        for name, samples in first_phase:
+            reg.process_meta_data(gen_.generate(*samples), name)
+        if stages.closure_cost(reg) > 80:
+            raise stages.TooCostly()
+        reg.merge_models(gen_)
     for name, samples in inputs:
         reg.process_meta_data(gen_.generate(*samples), name)
     before = {m.index: (set(m.type.keys()), conv.enc_ty(m.type)) for m in reg.models}
@@ -294,6 +302,26 @@ def falsify(ctx):
                 cases.append((inputs, [stages.TableCmp(kedges)], True))
                 cnt += 1
         ctx.count("tables_n6", cnt)
+    two_phase = []
+    for _ in range(ctx.n(30, 400)):
+        from .. import gen as _gen
+        tree = _gen.gen_recursive_tree(rng) if rng.random() < 0.6 else _gen.gen_shared_shape(rng)
+        more = _gen.gen_recursive_tree(rng) if rng.random() < 0.5 else dict(tree, extra_key=1)
+        cm = threshold_cmps(rng) if rng.random() < 0.5 else []
+        two_phase.append(([("Root", [tree])], [("Item", [more]), ("Again", [tree])], cm))
+    tree = {"id": 1, "name": "n", "v": 2, "children": [{"id": 2, "name": "m", "v": 3, "children": []}]}
+    two_phase.append(([("Node", [tree])], [("Item", [dict(tree, w=1)])], []))
+    for first, inputs, cmps in two_phase:
+        try:
+            hit = check_registry(inputs, cmps, registry, first_phase=first)
+        except (ZeroDivisionError, stages.TooCostly):
+            continue
+        except Exception as e:  # noqa
+            hit = {"kind": "merge-raises", "observed": f"{type(e).__name__}: {e}"}
+        ctx.case(("two-phase", repr(first), repr(inputs)), nontrivial=True)
+        if hit:
+            hit.update({"input": inputs, "first_phase": first, "cmps": [stages.enc_cmp(c) for c in cmps]})
+            yield hit
     for inputs, cmps, nontrivial in cases:
         try:
             hit = check_registry(inputs, cmps, registry)
@@ -312,7 +340,8 @@ def falsify(ctx):
 def replay(ctx, hit):
     from ..worker import cmps_from
     try:
-        return check_registry([tuple(x) for x in hit["input"]], cmps_from(hit["cmps"]), stages.make_registry())
+        return check_registry([tuple(x) for x in hit["input"]], cmps_from(hit["cmps"]), stages.make_registry(),
+                              first_phase=[tuple(x) for x in hit["first_phase"]] if hit.get("first_phase") else None)
     except stages.TooCostly:
         raise
     except Exception as e:  # noqa
